@@ -82,8 +82,11 @@ func Cluster(name string, providers ...any) *Collection {
 	c := newCollection(name, providers...)
 	if len(providers) > 1 {
 		id := atomic.AddInt32(&clusterID, 1)
-		for _, fm := range c.contents {
+		for i, fm := range c.contents {
+			// members may be shared with the collections passed in
+			fm = fm.copy()
 			fm.cluster = id
+			c.contents[i] = fm
 		}
 	}
 	return c
